@@ -3,6 +3,8 @@ use shared::rule::Rule;
 use shared::triple::Triple;
 use std::collections::{HashMap, HashSet};
 use crate::reasoning::Reasoner;
+use crate::reasoning::materialisation::replace_variables_with_bound_values;
+use crate::reasoning::rules::{evaluate_filters, join_rule};
 
 pub type SolutionMapping = HashMap<String, u32>;
 
@@ -30,10 +32,18 @@ impl Reasoner {
         let mut known_facts: HashSet<Triple> = all_facts.iter().cloned().collect();
         let idx_before_inference = all_facts.len(); // Used to keep track of which facts are inferred by the algorithm
 
+        // Stratum 0: rules without negation run to fixpoint; stratum 1: one pass of the rules
+        // with negative premises (same semantics as the provenance strategy).
+        let (positive_rules, negative_rules): (Vec<Rule>, Vec<Rule>) = self
+            .rules
+            .iter()
+            .cloned()
+            .partition(|r| r.negative_premise.is_empty());
+
         loop {
 
             let mut dict = self.dictionary.write().unwrap();
-            let mut inferred_facts_this_round = strat.infer_round(&mut dict, &self.rules, &all_facts, &known_facts);
+            let mut inferred_facts_this_round = strat.infer_round(&mut dict, &positive_rules, &all_facts, &known_facts);
 
             if inferred_facts_this_round.is_empty() {
                 break;
@@ -49,7 +59,41 @@ impl Reasoner {
             }
         }
 
+        if !negative_rules.is_empty() {
+            let derived = self.negative_stratum_pass(&negative_rules, &known_facts);
+            for fact in derived {
+                if known_facts.insert(fact.clone()) {
+                    self.dataset_index.insert(&fact);
+                    all_facts.push(fact);
+                }
+            }
+        }
+
         all_facts.split_off(idx_before_inference)
+    }
+
+    /// One pass of the rules with negative premises over the closure of the positive rules.
+    /// Negative premises are tested against `closure` only (heads of this pass feed nothing).
+    pub(crate) fn negative_stratum_pass(&self, negative_rules: &[Rule], closure: &HashSet<Triple>) -> Vec<Triple> {
+        let mut dict = self.dictionary.write().unwrap();
+        let mut derived = Vec::new();
+        for rule in negative_rules {
+            for binding in join_rule(rule, closure, closure) {
+                if !evaluate_filters(&binding, &rule.filters, &dict) {
+                    continue;
+                }
+                let blocked = rule.negative_premise.iter().any(|np| {
+                    closure.contains(&replace_variables_with_bound_values(np, &binding, &mut dict))
+                });
+                if blocked {
+                    continue;
+                }
+                for conclusion in &rule.conclusion {
+                    derived.push(replace_variables_with_bound_values(conclusion, &binding, &mut dict));
+                }
+            }
+        }
+        derived
     }
 }
 
